@@ -116,6 +116,7 @@ type Client struct {
 	registeredTopicsLock sync.RWMutex
 	messageHandlers      *messageHandlers
 	transactions         *transactions.TransactionStore
+	gwTransactions       *transactions.TransactionStore // exchanges started by the gateway: their message IDs are independent of ours
 	msgID                *util.IDSequence
 	conn                 net.Conn
 	state                *util.ClientState
@@ -136,6 +137,7 @@ func NewClient(log util.Logger, cfg *ClientConfig) *Client {
 		registeredTopics: make(map[string]uint16),
 		messageHandlers:  &messageHandlers{},
 		transactions:     transactions.NewTransactionStore(),
+		gwTransactions:   transactions.NewTransactionStore(),
 		state:            &state,
 		stateChangeCh:    make(chan util.ClientState, 1),
 		log:              log,
